@@ -429,13 +429,10 @@ func (g *Gen) callStatic(st *BState, in ssa.Instruction, callee *ssa.Function, a
 	if con != nil && con.Trusted {
 		g.usedTrusted[name+optVariant(con.Variant)] = true
 	}
-	if con != nil {
-		// a meta clause is assumed by callers and not proved in the body: it is an assumption
-		for _, e := range con.Ensures {
-			if e.Meta != "" {
-				g.usedTrusted["meta clause (assumed, not proved) "+shortFuncName(name)+"/"+e.Name+": "+e.Src] = true
-			}
-		}
+	// meta clauses (assumed by callers, not proved in the body) this call relies on, directly or through the
+	// verified contracts of the functions the callee calls: they are assumptions of this proof too
+	for _, m := range g.eng.metaDeps(callee, map[*ssa.Function]bool{}) {
+		g.usedTrusted[m] = true
 	}
 	// bind parameters
 	var params []*types.Var
@@ -1533,4 +1530,34 @@ func (g *Gen) labelExists(label string) bool {
 		}
 	}
 	return n <= cnt
+}
+
+// metaDeps: the meta clauses in the contracts of fn and of every repository function reachable from it by
+// static calls (a verified postcondition of fn may rest on them).
+func (e *Engine) metaDeps(fn *ssa.Function, seen map[*ssa.Function]bool) []string {
+	if fn == nil || seen[fn] {
+		return nil
+	}
+	seen[fn] = true
+	var out []string
+	for _, con := range e.contracts[fn.String()] {
+		for _, cl := range con.Ensures {
+			if cl.Meta != "" {
+				out = append(out, "meta clause (assumed, not proved) "+shortFuncName(fn.String())+"/"+cl.Name+": "+cl.Src)
+			}
+		}
+	}
+	if !e.isTarget(fn) {
+		return out
+	}
+	for _, b := range fn.Blocks {
+		for _, in := range b.Instrs {
+			if ci, ok := in.(ssa.CallInstruction); ok {
+				if sc := ci.Common().StaticCallee(); sc != nil && e.isTarget(sc) {
+					out = append(out, e.metaDeps(sc, seen)...)
+				}
+			}
+		}
+	}
+	return out
 }
